@@ -345,6 +345,17 @@ fn gen_envs(rng: &mut Rng, n: usize) -> Vec<Env> {
     v
 }
 
+const TAGS_WITH_SIDE_EFFECTS: &str = "let @zz_window = { 'w num };
+let @zz_quota = { 'q num };
+let @zz_kind = { 'k str };
+let zz_code x = 200;
+let zz_rate x = { 'X-Rate int };
+let zz_media x = \"application/json\";
+let zz_tree k v = rec t { 'key k, 'val v, 'kids [t] };
+res /zz-tags on get -> <status=(zz_code @zz_window), headers=(zz_rate @zz_quota), media=(zz_media @zz_kind), {}>;
+res /zz-tags2 on put -> <status=(zz_code (zz_tree num str)), headers=(zz_rate (zz_tree str num)), {}>;
+";
+
 pub fn c06_cfg(rng: &mut Rng) -> GenCfg {
     if rng.chance(1, 8) {
         // a large main module: the parser's memo table and the arenas grow well past
@@ -387,7 +398,19 @@ pub fn run(seed: u64, run: u64) -> Report {
         comments: true,
         shape: [0, 0, 0, 1, 2][(run % 5) as usize],
     };
-    let files: BTreeMap<String, String> = gen::render(&ast, &layout).into_iter().map(|m| (m.path, m.text)).collect();
+    let mut files: BTreeMap<String, String> = gen::render(&ast, &layout).into_iter().map(|m| (m.path, m.text)).collect();
+    // one run in four: transfers whose `status=`, `headers=` and `media=` are applications with
+    // side effects of their own (they introduce references, they hold a recursion) — whichever
+    // is evaluated first shows in the order and the names of the components
+    let side_effect_tags = er.chance(1, 4);
+    if side_effect_tags {
+        if let Some(t) = files.get_mut("main.oal") {
+            if !t.ends_with('\n') {
+                t.push('\n');
+            }
+            t.push_str(TAGS_WITH_SIDE_EFFECTS);
+        }
+    }
     let thorough = std::env::var("OALSIM_TIER").map(|t| t == "thorough").unwrap_or(false);
     let n_env = if thorough { 8 } else { 6 };
     let mut envs = gen_envs(&mut er, n_env);
@@ -418,6 +441,9 @@ pub fn run(seed: u64, run: u64) -> Report {
     let (v, outs) = compare(&scn, pc.as_ref());
 
     let mut probes: Vec<String> = Vec::new();
+    if side_effect_tags {
+        probes.push("transfer_tags_with_side_effects".into());
+    }
     if cfg.res_range.0 >= 60 {
         probes.push("large_module".into());
     }
